@@ -145,9 +145,39 @@ def r3(ctx, table, path2):
             ctx.ok(rule, variant, detail)
 
 
+def r4(ctx):
+    rule = "C18.R4"
+    ctx.rule(rule, "width cascade agreement: ProtobufWriter::write_number chooses the 32-bit encoders exactly for the bound ranges the "
+                   "model maps to 32-bit Rust types (and therefore declares as uint32 / sint32 in the .proto): MIN >= 0 && MAX <= "
+                   "u32::MAX, MIN >= i32::MIN && MAX <= i32::MAX - every other boundary sends a field the schema calls 64-bit "
+                   "through a 32-bit encoder or vice versa")
+    P = ctx.program()
+    bs = [b for b in P.lib_bodies("asn1rs") if "ProtobufWriter<'_> as descriptor::Writer>::write_number" in b.path and b.def_kind == "AssocFn"]
+    if len(bs) != 1:
+        ctx.fail(rule, "anchor-lost:write_number", "matched %d bodies" % len(bs))
+        return
+    b = bs[0]
+    ff = R.FnFacts(P, b)
+    got_max = sorted(int(k.rsplit("|", 1)[1]) for k in ff.cmps if "C::MAX" in k and "|b|" in k)
+    got_min = sorted(int(k.rsplit("|", 1)[1]) for k in ff.cmps if "C::MIN" in k and "|b|" in k)
+    # the model's own thresholds (asn_fixed_integer_to_rust_type)
+    cs = {k.split("::")[-1]: int(v.get("val")) for k, v in P.consts.items() if k.startswith("asn1rs_model::rust::") and v.get("val") is not None}
+    u32max, i32max = cs.get("U32_MAX", 2 ** 32 - 1), cs.get("I32_MAX", 2 ** 31 - 1)
+    want_max = sorted([i32max + 1, u32max + 1])
+    want_min = sorted([-(i32max + 1), 0])
+    detail = {"function": b.path, "boundaries_on_MAX": got_max, "boundaries_on_MIN": got_min, "model_thresholds": {"I32_MAX": i32max, "U32_MAX": u32max}}
+    if got_max != want_max or got_min != want_min:
+        ctx.fail(rule, "write_number#cascade", "write_number splits at MAX boundaries %s / MIN boundaries %s; the model (and the generated "
+                                               ".proto) splits at %s / %s" % (got_max, got_min, want_max, want_min),
+                 "%s:%d" % (b.file, b.line), detail)
+    else:
+        ctx.ok(rule, "write_number#cascade", detail)
+
+
 def run(ctx):
     with open(os.path.join(VERIF, "tables", "proto3_wire.json")) as fh:
         table = json.load(fh)
     path2 = r1(ctx, table)
     r2(ctx)
     r3(ctx, table, path2)
+    r4(ctx)
